@@ -309,6 +309,13 @@ func vkBehaviours() []vkBehaviour {
 		vkValidRefB("glue-loopback6", 1, func(c *vkBCtx, h string) ([]dns.RR, []dns.RR) {
 			return []dns.RR{vkNS(c.sub, h)}, []dns.RR{vkRR(h + " 300 IN AAAA ::1"), vkRR(h + " 300 IN AAAA ::ffff:127.0.0.1")}
 		}),
+		// the unspecified address: a datagram or connection to 0.0.0.0 / :: is delivered to the sending host itself
+		vkValidRefB("glue-unspecified", 0, func(c *vkBCtx, h string) ([]dns.RR, []dns.RR) {
+			return []dns.RR{vkNS(c.sub, h)}, []dns.RR{vkA(h, "0.0.0.0")}
+		}),
+		vkValidRefB("glue-unspecified6", 1, func(c *vkBCtx, h string) ([]dns.RR, []dns.RR) {
+			return []dns.RR{vkNS(c.sub, h)}, []dns.RR{vkRR(h + " 300 IN AAAA ::"), vkRR(h + " 300 IN AAAA ::ffff:0.0.0.0")}
+		}),
 		{Name: "glue-local-interface", Fn: func(c *vkBCtx, m *dns.Msg) bool {
 			if c.sub == "" || c.local == "" {
 				return false
